@@ -2160,6 +2160,9 @@ def run(cx):
     # receive-rate cap) makes the RTO infinite and the deadline overflow in step()
     from props.C14 import inst_rate_floor
     inst_rate_floor(cx, "C03.R")
+    # a plain comparison of sequence ids sends an id-walking loop round the whole 2^32 ring (or past the logged ids)
+    from props.idarith import id_arith_discipline
+    id_arith_discipline(cx, "C03.M")
     # the loop and index arguments above rest on definitions elsewhere: `packet_id::is_valid(x)` as a loop-bound
     # guard is only as good as is_valid's own definition (x <= MASK), and the fragment-buffer indices are in range
     # only if the buffer is created for exactly last_fragment_id + 1 fragments, computed without overflow
